@@ -358,6 +358,10 @@ Proof.
   - eapply vreturn_Inv; eauto.
   - eapply sreturn_Inv; eauto.
   - eapply install_menu_Inv; eauto.
+  - inversion E; subst. eapply Edit_Inv; [apply delete_fwd_spec; auto|auto].
+  - inversion E; subst. eapply Edit_Inv; [apply set_text_spec; auto|auto].
+  - eapply Edit_Inv; [eapply swap_chars_spec; eauto|auto].
+  - inversion E; subst. eapply Edit_Inv; [apply validate_sync_spec; auto|auto].
 Qed.
 
 Theorem run_Inv ls : forall s, Inv s -> Inv (run s ls).
